@@ -5,6 +5,7 @@ package main
 // observation = vote records, last observed nonce, per-validator nonces, credited supply.
 
 import (
+	"os"
 	"encoding/binary"
 	"fmt"
 	"math/big"
@@ -45,7 +46,7 @@ func observeVotes(env *Env) V {
 	return L(L(recs...), U(env.K.GetLastObservedEventNonce(ctx, cid)), Set(lasts...), Z(env.Bank.GetSupply(ctx, "hub").Amount.BigInt()))
 }
 
-func runVotesCase(seed uint64, nOps int, stats map[string]int) (V, V) {
+func runVotesCase(seed uint64, nOps int, restart bool, stats map[string]int) (V, V) {
 	rng := &Rng{s: seed}
 	tokens := []*types.TokenInfo{{Id: 1, Denom: "hub", ChainId: "ethereum", ExternalTokenId: votesCoin, ExternalDecimals: 18, Commission: sdk.ZeroDec()}}
 	nVals := 2 + rng.Intn(5)
@@ -108,6 +109,16 @@ func runVotesCase(seed uint64, nOps int, stats map[string]int) (V, V) {
 	progress := make([]uint64, nVals) // last nonce each validator voted (generator's view)
 	for len(ops) < nOps {
 		c := rng.Intn(100)
+		if restart && rng.Chance(1, 12) {
+			// genesis export / import between two blocks
+			code, m := outcome(func() error { env.Restart(); return nil })
+			if code != 0 && os.Getenv("VERIF_DEBUG") != "" {
+				fmt.Fprintln(os.Stderr, "restart:", m)
+			}
+			stats[fmt.Sprintf("restart_code%d", code)]++
+			record(L(I(4)), code)
+			continue
+		}
 		switch {
 		case c < 70:
 			vi := rng.Intn(nVals)
